@@ -413,9 +413,60 @@ def monitor_hp_ranges(tier="quick", seed=0):
             ok = False
         if not ok:
             viol.append({"clause": "json-round-trip", "domain": name})
-    return {"evaluations": n, "distinct": len(domains), "clauses": clauses, "violations": viol, "samples": [{"domain": domains[i][0]} for i in (0, 40, len(domains) - 1)], "summary": "%d domains x %d vectors + samples" % (len(domains), len(points) + 3)}
+    # -- active sub-ranges: every point of the advertised box, every corner and every random configuration decodes to a
+    #    member of the ACTIVE domain
+    act_cases = []
+    for cats in ([1, 9, 10, 20], [1, 2, 4, 8, 100], [0.001, 0.01, 0.5, 0.6], [3, 4, 5, 6, 7]):
+        for kind in ("nn", "nn-log", "equal"):
+            for lo in range(len(cats)):
+                for hi in range(lo, len(cats)):
+                    if (lo, hi) != (0, len(cats) - 1):
+                        act_cases.append(("ordinal(%r,%s)[%d:%d]" % (cats, kind, lo, hi + 1), cs.ordinal(cats, kind=kind), cs.ordinal(cats[lo : hi + 1], kind=kind), lambda v, a=cats[lo : hi + 1]: any(v == x for x in a)))
+    for lo, hi, alo, ahi in ((1, 10, 3, 5), (1, 10, 1, 1), (1, 10, 10, 10), (-5, 5, -1, 0), (1, 1000, 999, 1000)):
+        act_cases.append(("randint(%d,%d)[%d,%d]" % (lo, hi, alo, ahi), cs.randint(lo, hi), cs.randint(alo, ahi), lambda v, a=alo, b=ahi: a <= v <= b and isinstance(v, (int, np.integer))))
+    for lo, hi, alo, ahi in ((1, 1000, 10, 100), (1, 1000, 1, 2), (2, 64, 64, 64)):
+        act_cases.append(("lograndint(%d,%d)[%d,%d]" % (lo, hi, alo, ahi), cs.lograndint(lo, hi), cs.lograndint(alo, ahi), lambda v, a=alo, b=ahi: a <= v <= b))
+    for lo, hi, alo, ahi in ((0.0, 1.0, 0.2, 0.4), (-1.0, 1.0, -0.5, -0.25), (0.0, 1.0, 0.0, 0.0)):
+        act_cases.append(("uniform(%r,%r)[%r,%r]" % (lo, hi, alo, ahi), cs.uniform(lo, hi), cs.uniform(alo, ahi), lambda v, a=alo, b=ahi: a - 1e-9 * (1 + abs(a)) <= v <= b + 1e-9 * (1 + abs(b))))
+    for lo, hi, alo, ahi in ((1e-3, 1.0, 1e-2, 0.1), (1e-6, 1e2, 1.0, 10.0)):
+        act_cases.append(("loguniform(%r,%r)[%r,%r]" % (lo, hi, alo, ahi), cs.loguniform(lo, hi), cs.loguniform(alo, ahi), lambda v, a=alo, b=ahi: a * (1 - 1e-7) <= v <= b * (1 + 1e-7)))
+    act_cases.append(("choice(abcd)[bc]", cs.choice(["a", "b", "c", "d"]), cs.choice(["b", "c"]), lambda v: v in ("b", "c")))
+    act_cases.append(("choice(abcd)[d]", cs.choice(["a", "b", "c", "d"]), cs.choice(["d"]), lambda v: v == "d"))
+    clauses.append("decoded-inside-the-active-sub-range")
+    clauses.append("decoded-inside-the-active-sub-range[categorical-tie-at-the-zero-corner]")
+    grid = [0.0, 1e-9, 0.1, 0.25, 1.0 / 3, 0.5, 0.6180339887, 0.75, 0.9, 1 - 1e-9, 1.0]
+    for name, dom, act, inside in act_cases:
+        try:
+            hp = make_hyperparameter_ranges({"h": dom, "const": 7}, active_config_space={"h": act})
+            bounds = hp.get_ndarray_bounds()
+        except Exception as e:
+            viol.append({"clause": "decoded-inside-the-active-sub-range", "domain": name, "raised": repr(e)[:200]})
+            continue
+        d = hp.ndarray_size
+        vecs = [np.array([lo + t * (hi - lo) for lo, hi in bounds]) for t in grid]
+        if d > 1:  # one-hot: the corners of the advertised box
+            for i in range(d):
+                v = np.array([lo for lo, hi in bounds], dtype=float)
+                v[i] = bounds[i][1]
+                vecs.append(v)
+        for v in vecs:
+            n += 1
+            val = hp.from_ndarray(v)["h"]
+            if not inside(val):
+                # one-hot encodings: the corner "all active coordinates at their lower bound 0" is a tie (known finding F10)
+                tie = d > 1 and not np.any(v > 0)
+                viol.append({"clause": "decoded-inside-the-active-sub-range" + ("[categorical-tie-at-the-zero-corner]" if tie else ""), "domain": name, "bounds": [list(map(float, b)) for b in bounds], "vector": v.tolist(), "decoded": repr(val)})
+                if not tie:
+                    break
+        for _ in range(10):
+            n += 1
+            val = hp.random_config(rs)["h"]
+            if not inside(val):
+                viol.append({"clause": "decoded-inside-the-active-sub-range", "domain": name, "random_config": repr(val)})
+                break
+    return {"evaluations": n, "distinct": len(domains) + len(act_cases), "clauses": clauses, "violations": viol, "samples": [{"domain": domains[i][0]} for i in (0, 40, len(domains) - 1)], "summary": "%d domains x %d vectors + samples" % (len(domains), len(points) + 3)}
 
 
 from pyvc.native import native_monitor  # noqa: E402
 
-EXTRA_CHECKS = [native_monitor("C07", "contracts.c07", "monitor_hp_ranges", "hp_ranges[catalogue]", "catalogue of ~170 domains (hostile float / integer bounds, degenerate cases) x 11 unit-cube points + 20 samples each")]
+EXTRA_CHECKS = [native_monitor("C07", "contracts.c07", "monitor_hp_ranges", "hp_ranges[catalogue]", "catalogue of ~170 domains (hostile float / integer bounds, degenerate cases) x 11 unit-cube points + 20 samples each; ~140 active sub-ranges (ordinal nn / nn-log / equal with uneven gaps, integer, log, float, categorical) x 11 points of the advertised box + corners + 10 random configurations")]
